@@ -228,6 +228,7 @@ SNIPPETS = [
     ("fn_first_in_item", "- [^m]: note in item\n\n  second para of the item\n- next[^m]"), ("fn_first_in_oitem", "1. [^k]: note\n\n   ```\n   code\n   ```\n2. two[^k]"),
     ("tilde_sym", "about ~100 (+~200 extra) and cost~$5~ each, ~100 and <~200 items, approx~=5~ish"), ("tilde_del", "~~two~~ and a ~~b c~~ d"),       # single-tilde strikethrough is GFM only: the CommonMark reference parser reads it as text
     ("esc_entity", r"""AT&amp\;T and &#35\; and <\/b> and <br\/> and <a href=\"x\"> stay text, as do \&amp; and \<b> and 1986\, x\' y"""),
+    ("emptyquote_note", ">\n[!NOTE]\ntext after an empty quote"), ("quote_then_tip", "> quoted\n>\n[!TIP] is text here"),
     ("listfirst", "- - a\n\n  - b\n\n  para after inner"), ("olistfirst", "1. - x\n\n   - y\n2. z"),
 ]
 
